@@ -5,19 +5,101 @@ package zzc15
 
 import (
 	"context"
+	"sync/atomic"
+	"time"
 
 	proto "github.com/kubewharf/kubebrain-client/api/v2rpc"
 
 	"github.com/kubewharf/kubebrain/pkg/backend"
 	"github.com/kubewharf/kubebrain/pkg/server/service/leader"
+	"github.com/kubewharf/kubebrain/pkg/storage"
 	"github.com/kubewharf/kubebrain/pkg/zzmodel"
 	"github.com/kubewharf/kubebrain/pkg/zzverif"
 )
 
+// lockGate (native replays only): client-go's elector cannot be stopped, so a node that "stops"
+// is a node whose background goroutines (the elector's renew loop) hang in every engine call;
+// the harness thread's own calls pass. After the renew deadline the elector gives up and calls
+// OnStoppedLeading, which parks (the production callback exits the process).
+type lockGate struct {
+	storage.KvStorage
+	main     string
+	frozen   int32
+	commits  int32 // lock writes committed by the node's own goroutines
+	holdTill atomic.Value
+}
+
+// hang stops the node's own goroutines once the node has "stopped"; before that it holds the
+// elector back for a moment after it has acquired the lock, so that OnStartedLeading (which runs
+// concurrently with the first renewal in client-go) has read the lock's timestamp before the
+// renewal changes it — the order the elector model uses.
+func (g *lockGate) hang(hold bool) {
+	if zzverif.GoID() == g.main {
+		return
+	}
+	if atomic.LoadInt32(&g.frozen) == 1 {
+		select {}
+	}
+	if !hold {
+		return
+	}
+	if t, ok := g.holdTill.Load().(time.Time); ok {
+		if d := time.Until(t); d > 0 {
+			time.Sleep(d)
+		}
+	}
+}
+
+type gateBatch struct {
+	storage.BatchWrite
+	g *lockGate
+}
+
+func (b *gateBatch) Commit(ctx context.Context) error {
+	err := b.BatchWrite.Commit(ctx)
+	if err == nil && zzverif.GoID() != b.g.main && atomic.AddInt32(&b.g.commits, 1) == 1 {
+		b.g.holdTill.Store(time.Now().Add(150 * time.Millisecond))
+	}
+	return err
+}
+func (g *lockGate) Get(ctx context.Context, key []byte) ([]byte, error) {
+	g.hang(true)
+	return g.KvStorage.Get(ctx, key)
+}
+func (g *lockGate) BeginBatchWrite() storage.BatchWrite {
+	g.hang(true)
+	return &gateBatch{g.KvStorage.BeginBatchWrite(), g}
+}
+func (g *lockGate) GetTimestampOracle(ctx context.Context) (uint64, error) {
+	g.hang(false) // the oracle call that follows the acquiring write belongs to the same step
+	return g.KvStorage.GetTimestampOracle(ctx)
+}
+
+// stop makes the node's own goroutines hang from now on (natively; under gosym the elector model
+// has no renew loop to stop).
+func (g *lockGate) stop() {
+	if g != nil {
+		atomic.StoreInt32(&g.frozen, 1)
+	}
+}
+
 func newNode(s *zzmodel.Store, id string) (backend.Backend, leader.LeaderElection) {
-	be := backend.NewBackend(s, backend.Config{Prefix: "/r", Identity: id, EnableEtcdCompatibility: true, WatchCacheSize: 4}, zzmodel.NoMetrics{})
-	le := leader.NewLeaderElection(be, zzmodel.NoMetrics{}, func(context.Context) {}, func() {})
+	be, le, _ := newNodeGate(s, id)
 	return be, le
+}
+
+func newNodeGate(s *zzmodel.Store, id string) (backend.Backend, leader.LeaderElection, *lockGate) {
+	var kv storage.KvStorage = s
+	var g *lockGate
+	stopped := func() {}
+	if !zzverif.Symbolic() {
+		g = &lockGate{KvStorage: s, main: zzverif.GoID()}
+		kv = g
+		stopped = func() { select {} }
+	}
+	be := backend.NewBackend(kv, backend.Config{Prefix: "/r", Identity: id, EnableEtcdCompatibility: true, WatchCacheSize: 4}, zzmodel.NoMetrics{})
+	le := leader.NewLeaderElection(be, zzmodel.NoMetrics{}, func(context.Context) {}, stopped)
+	return be, le, g
 }
 
 // VerifC15Restart: an old leader runs a history that includes failed writes (which consume
@@ -38,10 +120,14 @@ func VerifC15Restart() {
 		return 1000 + elapsed
 	}
 	ctx := context.Background()
-	old, oldLE := newNode(s, "old")
+	old, oldLE, oldGate := newNodeGate(s, "old")
 	go oldLE.Campaign()
 	zzverif.WaitIdle()
 	zzverif.Assert(oldLE.IsLeader(), "first node becomes leader")
+	// natively the real elector would renew once per second from here on (and count as committed
+	// transactions): its goroutines hang from now on, the lock renewals of the tenure are the
+	// explicit ones below
+	oldGate.stop()
 	base := old.GetCurrentRevision()
 
 	// the old leader's tenure
@@ -50,6 +136,17 @@ func VerifC15Restart() {
 	seen := []uint64{base}
 	n := zzverif.Param("attempts", 3)
 	failed := 0
+	// a run of refused writes first (a controller retrying a stale update): each consumes a
+	// revision without touching the engine
+	nf := zzverif.Param("failures", 0)
+	for i := 0; i < nf; i++ {
+		elapsed += 1
+		resp, err := old.Update(ctx, &proto.UpdateRequest{Kv: &proto.KeyValue{Key: []byte("/r/other"), Value: []byte("v"), Revision: 3}})
+		zzverif.Assert(err == nil && !resp.Succeeded, "old leader: a stale update of a missing key is refused")
+		failed++
+		zzverif.WaitIdle()
+	}
+	base += uint64(nf)
 	for i := 0; i < n; i++ {
 		tag := "w" + string(rune('0'+i))
 		elapsed += 1 + uint64(zzverif.Choose(tag+".idle", 2))*5
@@ -95,19 +192,31 @@ func VerifC15Restart() {
 	// hiccup during fail-over); the elector then retries the round
 	of := zzverif.Choose("oracleFault", zzverif.Param("oraclefaults", 3)+1)
 	ncall := 0
-	s.TSOFault = func() bool { ncall++; return of != 0 && ncall == of }
-	go newLE.Campaign()
-	zzverif.FireTickers() // natively: wait for the old lease to run out
-	zzverif.WaitIdle()
-	if of != 0 && ncall >= of {
-		zzverif.Cover("oracle-fault-during-takeover")
-		if !newLE.IsLeader() {
-			elapsed += 1
-			go newLE.Campaign() // next round of the elector
-			zzverif.WaitIdle()
+	fault := func() bool { ncall++; return of != 0 && ncall == of }
+	if zzverif.Symbolic() {
+		s.TSOFault = fault
+		go newLE.Campaign()
+		zzverif.FireTickers()
+		zzverif.WaitIdle()
+		if of != 0 && ncall >= of {
+			zzverif.Cover("oracle-fault-during-takeover")
+			if !newLE.IsLeader() {
+				elapsed += 1
+				go newLE.Campaign() // next round of the elector
+				zzverif.WaitIdle()
+			}
 		}
+	} else {
+		// natively the real elector first sits out the old lease (8 s from the moment it sees the
+		// record), asking the engine once per period; the oracle calls are counted from the first
+		// pass that can acquire, as in the model; after a failed pass the elector retries by itself
+		go newLE.Campaign()
+		time.Sleep(8100 * time.Millisecond)
+		s.TSOFault = fault
+		time.Sleep(time.Duration(zzverif.Param("native_takeover_ms", 6500)) * time.Millisecond)
 	}
 	s.TSOFault = nil
+	zzverif.Observe("takeover", newLE.IsLeader(), nb.GetCurrentRevision() >= stored, nb.GetCurrentRevision() > base)
 	zzverif.Assert(newLE.IsLeader(), "second node becomes leader")
 	zzverif.Assert(nb.GetCurrentRevision() >= stored, "everything written before remains visible at the new leader's revision")
 	// guarded write on an existing key keeps working
